@@ -163,6 +163,34 @@ def main(tier):
                     unresolved.append("%s.%s" % (name, f.name))
     if unresolved:
         rep.fail("annotations unresolved after first get_converter()", {"fields": unresolved[:20], "count": len(unresolved)})
+    # first converter of a fresh process created on a USER-SUPPLIED cattrs converter: forward
+    # references must resolve on that path too
+    import subprocess
+
+    code = (
+        "import sys; sys.path.insert(0, %r)\n"
+        "import cattrs, attrs, lsprotocol.types as T, lsprotocol.converters as cv\n"
+        "c = cv.get_converter(cattrs.Converter())\n"
+        "bad = [n + '.' + f.name for n, o in T.ALL_TYPES_MAP.items() if isinstance(o, type) and attrs.has(o) for f in attrs.fields(o) if isinstance(f.type, str) or 'ForwardRef' in repr(f.type)]\n"
+        "ok = True\n"
+        "try:\n"
+        "    c.structure({'jsonrpc': '2.0', 'id': 1, 'result': {'contents': 'x', 'range': {'start': {'line': 0, 'character': 0}, 'end': {'line': 0, 'character': 1}}}}, T.HoverResponse)\n"
+        "except Exception as e:\n"
+        "    ok = repr(e)[:200]\n"
+        "import json; print(json.dumps({'unresolved': len(bad), 'first': bad[:5], 'structure': ok}))\n" % ctx.pkg_root()
+    )
+    pr = subprocess.run([common.PY, "-c", code], capture_output=True, text=True, timeout=300, env=dict(common.os.environ, PYTHONHASHSEED="0"))
+    facets += 1
+    try:
+        import json as _json
+
+        fr = _json.loads(pr.stdout.strip().splitlines()[-1])
+        if fr["unresolved"]:
+            rep.fail("annotations unresolved when the first converter is built on a user-supplied cattrs converter", fr)
+        elif fr["structure"] is not True:
+            rep.fail("structuring fails on a first converter built on a user-supplied cattrs converter", fr)
+    except Exception:
+        rep.fail("first converter on a user-supplied cattrs converter cannot be created in a fresh process", {"stderr": pr.stderr[-500:]})
     cov = {
         "evaluations": facets + names,
         "distinct_nontrivial": len(methods) * 6,
